@@ -25,6 +25,8 @@
      6 dead_silent        a NOTIFY goes only to a SID that was issued, not unsubscribed, whose expiry in force
                           is later than the event's time, at the callback it registered
      7 unknown_refused    renewing or unsubscribing a SID that was never issued or was unsubscribed is refused (4xx)
+     9 eventual           at the end of the history every unexpired subscriber's last event carries the current
+                          value of every evented variable that last changed at least one interval ago
      8 shape              the observation fits the history (event times within the step, result kind fits the
                           operation, a value assignment succeeds iff the value is in range)
 
@@ -273,10 +275,35 @@ Definition init_pvar (d : decl) : pvar := {| p_val := d_def d; p_trig := epoch; 
 Definition init_sstate (c : cfg) : sstate :=
   {| sp_now := 0; sp_nsid := 0%N; sp_vars := map init_pvar c; sp_subs := [] |}.
 
+(* the specification state at the end of the history *)
+Fixpoint spec_fold (c : cfg) (sp : sstate) (ops : list op) (obs : list step_obs) : sstate :=
+  match ops, obs with
+  | o :: ops', ob :: obs' => spec_fold c (fst (spec_step c sp o ob)) ops' obs'
+  | _, _ => sp
+  end.
+Definition spec_final (i : input) (o : observation) : sstate :=
+  spec_fold (fst i) (fst (check_runs (fst i) None 0 (init_sstate (fst i)) (fst o))) (snd i) (snd o).
+
+(* clause 9, eventual consistency, stated on its own: at the end of the history every unexpired subscriber's
+   last event carries the current value of every evented variable whose last change is at least one
+   moderation interval old ("changes stopped, timers fired") *)
+Fixpoint settled_from (i : nat) (c : cfg) (pvs : list pvar) (t : Z) (last : list (nat * option N)) : bool :=
+  match c, pvs with
+  | d :: c', pv :: pvs' =>
+      (negb (d_ev d) || negb (p_chg pv + d_rate d <=? t)
+       || match lookup i last with Some x => opt_eqb x (p_val pv) | None => false end)
+      && settled_from (S i) c' pvs' t last
+  | _, _ => true
+  end.
+Definition ec_ok (c : cfg) (sp : sstate) : bool :=
+  forallb (fun s => negb (sp_now sp <? ss_exp s) || settled_from O c (sp_vars sp) (sp_now sp) (ss_last s))
+          (sp_subs sp).
+
 (* failing (clause, step) pairs; step 0 = building the service, step k+1 = the k-th operation *)
 Definition spec_ok (i : input) (o : observation) : list (N * N) :=
   let '(sp0, f0) := check_runs (fst i) None 0 (init_sstate (fst i)) (fst o) in
-  map (fun cl => (cl, 0%N)) f0 ++ spec_steps (fst i) sp0 1%N (snd i) (snd o).
+  map (fun cl => (cl, 0%N)) f0 ++ spec_steps (fst i) sp0 1%N (snd i) (snd o)
+  ++ map (fun cl => (cl, N.of_nat (length (snd i)))) (chk 9 (ec_ok (fst i) (spec_final i o))).
 
 (* ------------------------------------------------------------------ domain of the theorems *)
 Definition decl_ok (d : decl) : bool :=
